@@ -244,11 +244,18 @@ pub fn c04_case(src: &mut Src, obs: &mut Obs) -> CaseResult {
                     if b.is_empty() {
                         break;
                     }
-                    match src.below(6) {
+                    match src.below(7) {
                         0 => {
                             let i = src.below(b.len());
                             b[i] = src.u8();
                             w.push(format!("poke {i}"));
+                        }
+                        6 if b.len() >= 2 => {
+                            // a framing offset just past its neighbour's: an element that ends inside
+                            // the padding in front of where it should start
+                            let i = (b.len() - 1 - src.below(b.len().min(12))).max(1);
+                            b[i] = b[i - 1].wrapping_add(src.below(5) as u8);
+                            w.push(format!("offset-after-neighbour {i}"));
                         }
                         5 => {
                             // nudge a byte near the end by a little: a framing offset that now points
